@@ -2055,6 +2055,10 @@ static void *lsampler(void *arg)
 
 static void life_epoch(vrt_rng *r, lu_t *u, int first)
 {
+    /* the sampler reads the epoch parameters only while sampling is on */
+    pthread_mutex_lock(&u->lock);
+    u->sampling = 0;
+    pthread_mutex_unlock(&u->lock);
     /* draw behaviour and cancellation */
     for (;;) {
         u->behav = (int)vrt_range(r, LB_NBEHAV);
